@@ -250,6 +250,11 @@ inductive S where
   | entrySpread (x : S) (rest : S)
   /-- the map literal `{entries}` -/
   | mapLit (entries : S)
+  /-- an omitted optional part (not an expression): the condition of a comprehension, a bound of
+  a slice -/
+  | absent
+  /-- `[e for key, value in target if cond]` (`cond` may be `absent`) -/
+  | comp (e : S) (key : Option String) (value : String) (target : S) (cond : S)
   deriving Repr, Inhabited
 
 /-- source token of an infix operator -/
@@ -303,6 +308,13 @@ def toks : S → List Tok
   | entryKV k v rest => k.tok :: .colon :: (toks v ++ (sepToks rest ++ toks rest))
   | entrySpread x rest => .spread :: (toks x ++ (sepToks rest ++ toks rest))
   | mapLit es => .leftBrace :: (toks es ++ [.rightBrace])
+  | absent => []
+  | comp e key value target cond =>
+    .leftBracket :: (toks e ++ .ident "for" :: ((match key with
+        | some k => [.ident k, .comma]
+        | none => []) ++ .ident value :: .ident "in" :: (toks target ++ ((match cond with
+        | absent => []
+        | _ => [.ident "if"]) ++ (toks cond ++ [.rightBracket])))))
   | argCons k v rest => .ident k :: .assign :: (toks v ++ (sepToks rest ++ toks rest))
   | call name args => .ident name :: .leftParen :: (toks args ++ [.rightParen])
   | filterA e name args => toks e ++ .pipe :: .ident name :: .leftParen :: (toks args ++ [.rightParen])
@@ -318,10 +330,11 @@ def foldArray (xs : List ArrayEntry) : Expr :=
   | none => .array xs
 
 /-- `literal_only` as the loop of `parse_map` computes it -/
-def mapLitOf (xs : List MapEntry) : Bool :=
-  xs.all (fun x => match x with
-    | .keyValue _ v => v.isLiteral
-    | .spread _ => false)
+def entryLit : MapEntry → Bool
+  | .keyValue _ v => v.isLiteral
+  | .spread _ => false
+
+def mapLitOf (xs : List MapEntry) : Bool := xs.all entryLit
 
 /-- the parser's constant folding of a map literal (`parse_map`): a map of constants is one
 constant (a later duplicate key overrides an earlier one) -/
@@ -355,6 +368,12 @@ def erase : S → Expr
     else .test (erase e) name (Expr.sortKwargs (eraseArgs args))
   | arr items => foldArray (eraseItems items)
   | mapLit es => foldMap (eraseEntries es)
+  | comp e key value target cond =>
+    .listComprehension (erase e) key value (erase target)
+      (match cond with
+        | absent => none
+        | _ => some (erase cond))
+  | absent => .const .none
   | entryNil => .const .none
   | entryKV .. => .const .none
   | entrySpread .. => .const .none
@@ -395,6 +414,7 @@ def need : S → Nat
   | entryKV _ v rest => max (1 + need v) (need rest)
   | entrySpread x rest => max (1 + need x) (need rest)
   | mapLit es => need es
+  | comp e _ _ target cond => max (1 + need e) (max (1 + need target) (1 + need cond))
   | call _ args => need args
   | filterA e _ args => max (need e) (need args)
   | testA e _ _ args => max (need e) (need args)
@@ -418,6 +438,7 @@ def bneed : S → Nat
   | entryKV _ v rest => max (bneed v) (bneed rest)
   | entrySpread x rest => max (bneed x) (bneed rest)
   | mapLit es => bneed es
+  | comp e _ _ target cond => max (bneed e) (max (bneed target) (bneed cond))
   | call _ args => bneed args
   | filterA e _ args => max (bneed e) (bneed args)
   | testA e _ _ args => max (bneed e) (bneed args)
@@ -441,6 +462,7 @@ def adneed : S → Nat
   | entryKV _ v rest => max (adneed v) (adneed rest)
   | entrySpread x rest => max (adneed x) (adneed rest)
   | mapLit es => adneed es
+  | comp e _ _ target cond => max (1 + adneed e) (max (adneed target) (adneed cond))
   | call _ args => adneed args
   | filterA e _ args => max (adneed e) (adneed args)
   | testA e _ _ args => max (adneed e) (adneed args)
@@ -486,7 +508,7 @@ def argNames : S → List String
 parenthesised expression, or another such subscript -/
 def primary : S → Bool
   | int _ | float _ | str _ | bool _ | noneLit _ | paren _ | index .. | call .. | arr _
-  | mapLit _ => true
+  | mapLit _ | comp .. => true
   | _ => false
 
 mutual
@@ -520,6 +542,13 @@ def DocWP (L : DocLevels) : S → Prop
     DocWP L e ∧ L.bin .Is ≤ e.lvl L ∧ (neg = false → name ≠ "not") ∧ DocWPArgs L args
   | arr items => DocWPItems L items
   | mapLit es => DocWPEntries L es
+  | comp e key value target cond =>
+    DocWP L e ∧ value ∉ Gen.RESERVED_NAMES ∧ (∀ k, key = some k → k ∉ Gen.RESERVED_NAMES)
+      ∧ DocWP L target ∧ 1 ≤ target.lvl L
+      ∧ (match cond with
+          | absent => True
+          | _ => DocWP L cond ∧ 1 ≤ cond.lvl L)
+  | absent => False
   | entryNil => False
   | entryKV .. => False
   | entrySpread .. => False
@@ -605,6 +634,27 @@ def decDocWP (L : DocLevels) : (s : S) → Decidable (s.DocWP L)
       ∧ DocWPArgs L args))
   | arr items => decDocWPItems L items
   | mapLit es => decDocWPEntries L es
+  | comp e key value target cond =>
+    have := decDocWP L e
+    have := decDocWP L target
+    have : Decidable (match cond with
+          | absent => True
+          | _ => DocWP L cond ∧ 1 ≤ cond.lvl L) := by
+      have := decDocWP L cond
+      cases cond <;> (simp only []; infer_instance)
+    have : Decidable (∀ k, key = some k → k ∉ Gen.RESERVED_NAMES) := by
+      cases key with
+      | none => exact isTrue (by intro k h; cases h)
+      | some k0 =>
+        exact decidable_of_iff (k0 ∉ Gen.RESERVED_NAMES)
+          ⟨fun h k hk => by cases hk; exact h, fun h => h k0 rfl⟩
+    inferInstanceAs (Decidable (DocWP L e ∧ value ∉ Gen.RESERVED_NAMES
+      ∧ (∀ k, key = some k → k ∉ Gen.RESERVED_NAMES)
+      ∧ DocWP L target ∧ 1 ≤ target.lvl L
+      ∧ (match cond with
+          | absent => True
+          | _ => DocWP L cond ∧ 1 ≤ cond.lvl L)))
+  | absent => isFalse (fun h => h)
   | entryNil => isFalse (fun h => h)
   | entryKV .. => isFalse (fun h => h)
   | entrySpread .. => isFalse (fun h => h)
@@ -621,7 +671,7 @@ def decDocWPArgs (L : DocLevels) : (s : S) → Decidable (s.DocWPArgs L)
   | int _ | float _ | str _ | bool _ | noneLit _ | var _ | paren _ | unary .. | binary ..
   | notIn .. | ternary .. | filter .. | test .. | index .. | attr .. | sub .. | call ..
   | filterA .. | testA .. | itemNil | itemCons .. | arr _ | entryNil | entryKV .. | entrySpread ..
-  | mapLit _ => isFalse (fun h => h)
+  | mapLit _ | absent | comp .. => isFalse (fun h => h)
 def decDocWPItems (L : DocLevels) : (s : S) → Decidable (s.DocWPItems L)
   | itemNil => isTrue trivial
   | itemCons _ x rest =>
@@ -631,7 +681,7 @@ def decDocWPItems (L : DocLevels) : (s : S) → Decidable (s.DocWPItems L)
   | int _ | float _ | str _ | bool _ | noneLit _ | var _ | paren _ | unary .. | binary ..
   | notIn .. | ternary .. | filter .. | test .. | index .. | attr .. | sub .. | call ..
   | filterA .. | testA .. | argNil | argCons .. | arr _ | entryNil | entryKV .. | entrySpread ..
-  | mapLit _ => isFalse (fun h => h)
+  | mapLit _ | absent | comp .. => isFalse (fun h => h)
 def decDocWPEntries (L : DocLevels) : (s : S) → Decidable (s.DocWPEntries L)
   | entryNil => isTrue trivial
   | entryKV _ v rest =>
@@ -645,7 +695,7 @@ def decDocWPEntries (L : DocLevels) : (s : S) → Decidable (s.DocWPEntries L)
   | int _ | float _ | str _ | bool _ | noneLit _ | var _ | paren _ | unary .. | binary ..
   | notIn .. | ternary .. | filter .. | test .. | index .. | attr .. | sub .. | call ..
   | filterA .. | testA .. | argNil | argCons .. | arr _ | itemNil | itemCons ..
-  | mapLit _ => isFalse (fun h => h)
+  | mapLit _ | absent | comp .. => isFalse (fun h => h)
 end
 
 instance (L : DocLevels) (s : S) : Decidable (s.DocWP L) := decDocWP L s
@@ -687,6 +737,11 @@ def canon (L : DocLevels) : S → S
   | entryKV k v rest => entryKV k (canon L v) (canon L rest)
   | entrySpread x rest => entrySpread (canon L x) (canon L rest)
   | mapLit es => mapLit (canon L es)
+  | comp e key value target cond =>
+    comp (canon L e) key value (atLeast L 1 (canon L target))
+      (match cond with
+        | absent => absent
+        | _ => atLeast L 1 (canon L cond))
   | call n args => call n (canon L args)
   | filterA e n args => filterA (atLeast L (L.bin .Pipe) (canon L e)) n (canon L args)
   | testA e n g args => testA (atLeast L (L.bin .Is) (canon L e)) n g (canon L args)
@@ -720,6 +775,13 @@ def Valid : S → Prop
   | testA e name neg args => Valid e ∧ (neg = false → name ≠ "not") ∧ ValidArgs args
   | arr items => ValidItems items
   | mapLit es => ValidEntries es
+  | comp e key value target cond =>
+    Valid e ∧ value ∉ Gen.RESERVED_NAMES ∧ (∀ k, key = some k → k ∉ Gen.RESERVED_NAMES)
+      ∧ Valid target
+      ∧ (match cond with
+          | absent => True
+          | _ => Valid cond)
+  | absent => False
   | entryNil => False
   | entryKV .. => False
   | entrySpread .. => False
